@@ -65,6 +65,13 @@ func (P) Gen(rng *sim.Rng, tier string) *harness.Case {
 	cfg.Burst = int64(rng.Range(0, 3))
 	cfg.DSec = int64(rng.Range(1, 5))
 	cfg.QMs = []int64{0, 1, 100, 500, 1000, 3000}[rng.Intn(6)]
+	big := rng.Chance(0.1)
+	if big {
+		// swarm: production magnitudes (token arithmetic must not overflow for large thresholds and long idle times)
+		cfg.T = []int64{1000000, 1000000000, 1000000000000, 1000000000000000}[rng.Intn(4)]
+		cfg.Burst = []int64{0, 1, 1000000, 1000000000000000}[rng.Intn(4)]
+		cfg.DSec = []int64{1, 60, 3600, 86400}[rng.Intn(4)]
+	}
 	if rng.Chance(0.2) {
 		cfg.Cap = int64(rng.Range(1, 3))
 	}
@@ -120,6 +127,9 @@ func (P) Gen(rng *sim.Rng, tier string) *harness.Case {
 				d = 2*D + rng.U64Range(0, D)
 			default:
 				d = rng.U64Range(0, D)
+			}
+			if big && rng.Chance(0.2) {
+				d = []uint64{86400000, 30 * 86400000, 365 * 86400000}[rng.Intn(3)] // idle for a day, a month, a year
 			}
 			ops = append(ops, harness.Op{K: "tick", N: d})
 		}
